@@ -125,6 +125,11 @@ theorem gen_q2d_slopes (G : Fam K) (m : Nat) (c s : K) (da db : List K) (u : K) 
     (q2dTermB G m c s da db u).2.2 =
       zzQ2dDt (Num.ofInt m) (Num.npow u m) (q2dRead m (derTable G (u * u) da 0)) (q2dRead m (derTable G (u * u) db 0)) s c ∧
     zzQ2dSlopeStructure = true := ⟨rfl, rfl, by decide⟩
+/-- every coefficient / order argument of the derivative routines that is documented as an iterable is turned into a sequence before
+anything else reads it, or read exactly once front to back (never traversed twice, measured or indexed while it may still be a
+generator / iterator / zip object); Boolean computed by the translator from the syntax trees, opaque to Lean -/
+theorem gen_iterable_arguments : derivativeRoutinesReadIterableArgumentsOnceOrMaterialiseFirst = true := by decide
+
 end Gen
 
 section GenField
